@@ -235,7 +235,15 @@ P("C19", "translation_validation", "conversion chains vs std (implementation vs 
   TV_NOTE + "The repr(transparent) pointer casts are exercised, not proved.",
   rule="all byte strings <= 4 over a 9-byte alphabet with valid and invalid UTF-8 sequences; non-trivial = contains a non-ASCII byte", design_ref="§5 C19")
 
-P("C20", "translation_validation", "two builds (std / no-default-features) vs one model",
+P("C20", "translation_validation", "two builds (std / no-default-features) vs one model, op by op + Lean theorem over the generated cfg-site table",
   "The harness is built in both feature configurations; both run the same op file (a slice of every other property's "
-  "domain) and both transcripts must equal the model's.",
-  TV_NOTE, rule="every 17th (quick) / 3rd (thorough) op line of the other properties' quick domains; two builds", design_ref="§5 C20")
+  "domain); the two transcripts must be identical op by op (a difference is reported with that op as replay) and equal "
+  "to the model's. In addition gen/sites.py regenerates the table of every feature-dependent cfg / cfg_attr site of "
+  "the source on every run and cfg_additive proves by kernel evaluation that `std` is tested negatively only by the "
+  "crate-level no_std attribute and every other site guards a whole item positively (no alternative bodies); "
+  "no_runtime_feature_test: no cfg!(feature) expression exists.",
+  TV_NOTE + "The theorem is about the generated table (gen/sites.py, regex + a small cfg-predicate parser, is trusted); "
+  "that an additive table implies identical semantics is an argument about Rust, not a Lean theorem — the two-build "
+  "differential is what decides.",
+  theorems=["TP.C20.cfg_additive", "TP.C20.no_runtime_feature_test", "TP.C20.cfg_sites_nonempty"],
+  rule="every 17th (quick) / 3rd (thorough) op line of the other properties' quick domains; two builds", design_ref="§5 C20")
